@@ -5,7 +5,7 @@ import "regexp"
 func init() {
 	props = append(props, prop{
 		ID: "C20", Title: "Allocator contracts", Level: "exploration",
-		Rule:        "random programs over Malloc/Append/AppendString/Realloc/Free per allocator (mempool.New variants, NewAligned, NewSTD, DefaultMemPool, TraceDebugger wrappers) checked after every operation against a shadow copy; every k ops all live buffers are compared with their shadows and their [base,base+cap) ranges checked pairwise disjoint. evaluations = programs; a program is non-trivial if it performed >=1 growth (Append/Realloc beyond capacity), >=1 free-then-malloc reuse and held >=2 buffers live at a full sweep; distinct by (allocator, mode, program seed)",
+		Rule:        "random programs over Malloc/Append/AppendString/Realloc/Free per allocator (mempool.New variants, NewAligned, NewSTD, DefaultMemPool, TraceDebugger wrappers) checked after every operation against a shadow copy; every k ops all live buffers are compared with their shadows and their [base,base+cap) ranges checked pairwise disjoint. evaluations = programs; a program is non-trivial if it performed >=1 growth (Append/Realloc beyond capacity), >=1 free-then-malloc reuse and held >=2 buffers live at a full sweep; distinct by (allocator, mode, program seed). Mode handoff: 8 producers allocate and fill buffers (1-256 bytes, every 64th up to 16 KiB) and hand them through a channel to 8 consumers, which check length and contents on receipt, after a yield and after an Append, then free them - buffers are allocated and freed on different Ps, so a Malloc regularly takes a header another goroutine has just put back (counter handoff_malloc_free_pairs)",
 		Assumptions: commonAssumptions,
 		Phases: []phase{
 			{Name: "main", Pkg: "./workers/c20", QuickShards: 4, ThorShards: 12},
